@@ -176,6 +176,9 @@ int __wrap_open64(const char *path, int flags, ...) {
     mode = va_arg(ap, mode_t);
     va_end(ap);
   }
+  if (W.open_from && !strcmp(path, W.open_from)) {
+    path = W.open_to;
+  }
   GATE_FAIL("open", -1);
   logf_(" %s %s%s%s%s%s%s", canon(path),
         (flags & O_ACCMODE) == O_RDONLY ? "R" : (flags & O_ACCMODE) == O_WRONLY ? "W" : "RW",
@@ -196,6 +199,9 @@ int __wrap_open64(const char *path, int flags, ...) {
 }
 
 int __wrap_close(int fd) {
+  if (W.close_hook) {
+    return W.close_hook(fd);
+  }
   GATE_FAIL("close", (__real_close(fd), W.open_fds--, -1));
   int r = __real_close(fd);
   if (r == 0) {
